@@ -10,11 +10,17 @@ TInit == Init /\ l = 1 /\ div = NoDiv /\ devAll = {} /\ taint = FALSE /\ TLCSet(
 
 Has(ev, f) == f \in DOMAIN ev
 (* JSON arrays standing for sets are compared as sets *)
+(* the read-before-overwrite half of the pool's order is part of C13's statement only: that check substitutes
+   JudgePoolAntiDep <- Yes; for every other property a wrong order counts once a mined block carries it *)
+Yes == TRUE
+JudgePoolAntiDep == FALSE
 (* poolseq (the order in which the pool yields its transactions) is not part of the compared record: it is judged by
-   SeqOK - every transaction comes after the pending transactions whose outputs or key versions it consumes *)
+   SeqOK - every transaction comes after the pending transactions whose outputs or key versions it consumes, and
+   (unless the known deviation is switched on) a pure reader of a key version before the pending writer superseding it *)
 Norm(o) == [f \in DOMAIN o \ {"poolseq"} |-> IF f \in {"utxo", "pool", "poold"} THEN Range(o[f]) ELSE o[f]]
 SeqOK(o) == "poolseq" \notin DOMAIN o \/ \A i, j \in DOMAIN o.poolseq :
                (i < j /\ o.poolseq[i] \in AllTxs /\ o.poolseq[j] \in AllTxs) => ~DependsOn(o.poolseq[i], o.poolseq[j])
+                  /\ (~JudgePoolAntiDep \/ KF_PoolOrderAntiDep \/ ~AntiDep(o.poolseq[j], o.poolseq[i]))
 FaultAct(ev) ==
   CASE ev.op = "walk"    -> IF ev.fault < WalkBlockWrites(ev.d, ev.prune) THEN WalkFault(ev.d, ev.prune, ev.fault)
                             ELSE Walk(ev.d, ev.prune, Range(ev.obs.pool), <<>>)   \* a re-admission write failed: that tx is dropped
